@@ -2,7 +2,7 @@
 under the I/O interposer, INCLUDING the interpreter's exit phase (atexit handlers
 run with the interposer still installed - the sharded accessor flushes there).
 
-usage: cli_child.py <root> <plan json|null> <report path> <module> [tool args...]
+usage: cli_child.py <root>[|<extra root>...] <plan json|null> <report path> <module> [tool args...]
 """
 import atexit
 import json
@@ -15,7 +15,8 @@ from harness.faults import Crash, Interposer  # noqa: E402
 
 root, plan, report, module = sys.argv[1:5]
 argv = sys.argv[5:]
-ip = Interposer(root, json.loads(plan) if plan != "null" else None)
+root, *extra = root.split("|")          # "<dataset root>|<TMPDIR>": both are enumerated
+ip = Interposer(root, json.loads(plan) if plan != "null" else None, extra_roots=extra)
 
 
 def dump():
